@@ -22,6 +22,7 @@ whose key() was already seen at the same or a smaller depth is not extended.
 """
 import collections
 import hashlib
+import mmap as _mmap
 import os
 
 from . import build as _build
@@ -35,12 +36,19 @@ def _journal_path(item):
     return os.path.join(_build.scratch_shared(), "journal-" + hashlib.sha1(repr(item).encode()).hexdigest()[:16])
 
 
+_JSIZE = 8192
+
+
 def _note(nh):
     if _journal is not None:
-        _journal.seek(0)
-        _journal.write(repr(nh) + "\n")
-        _journal.truncate()
-        _journal.flush()
+        if not isinstance(_journal, _mmap.mmap):   # file-like journal installed by a property module
+            _journal.seek(0)
+            _journal.write(repr(nh) + "\n")
+            _journal.truncate()
+            _journal.flush()
+            return
+        b = (repr(nh) + "\n").encode("utf-8", "replace")[:_JSIZE - 1]
+        _journal[:len(b) + 1] = b + b"\0"       # a shared mapping: survives the death of the process
 
 
 class Stats(object):
@@ -55,6 +63,7 @@ class Stats(object):
         self.samples = []
         self.by_depth = collections.Counter()
         self.op_hist = collections.Counter()
+        self.frontier = []         # unexplored histories of length == depth (for splitting the work)
 
     def merge(self, o):
         self.states += o.states
@@ -82,7 +91,7 @@ def build(Sys, cfg, hist):
     return s
 
 
-def explore(Sys, cfg, depth, d0, prefix=(), close_every=True, max_violations=50):
+def explore(Sys, cfg, depth, d0, prefix=(), close_every=True, max_violations=50, want_frontier=False):
     st = Stats()
     seen = {}
     frontier = collections.deque([tuple(prefix)])
@@ -120,6 +129,8 @@ def explore(Sys, cfg, depth, d0, prefix=(), close_every=True, max_violations=50)
             st.by_depth[len(nh)] += 1
             if len(st.samples) < 3 and len(nh) == depth:
                 st.samples.append([repr(o) for o in nh])
+            if len(nh) == depth and want_frontier:
+                st.frontier.append(nh)
             if len(nh) < depth:
                 frontier.append(nh)
                 if close_every and hasattr(s, "close"):
@@ -139,22 +150,8 @@ def explore(Sys, cfg, depth, d0, prefix=(), close_every=True, max_violations=50)
 _JOB = {}
 
 
-def _work(item):
-    global _journal
-    Sys, depth, d0, close_every = _JOB["args"]
-    cfg, prefix = item
-    _journal = open(_journal_path(item), "w")
-    try:
-        return explore(Sys, cfg, depth, d0, prefix, close_every)
-    finally:
-        _journal.close()
-        _journal = None
-
-
 def prefixes(Sys, cfg, n):
-    """All histories of length exactly n (no merging), and stats for lengths <= n."""
-    st = Stats()
-    out = []
+    """All histories of length exactly n (no merging, no checking)."""
     level = [()]
     for d in range(n):
         nxt = []
@@ -166,31 +163,60 @@ def prefixes(Sys, cfg, n):
     return level
 
 
+def _work(item):
+    global _journal
+    import mmap
+    Sys, d0, close_every = _JOB["args"]
+    cfg, prefix, depth, want_frontier = item
+    path = _journal_path(item)
+    with open(path, "wb") as f:
+        f.write(b"\0" * _JSIZE)
+    f = open(path, "r+b")
+    _journal = mmap.mmap(f.fileno(), _JSIZE)
+    try:
+        return explore(Sys, cfg, depth, min(d0, depth) if want_frontier else d0, prefix, close_every,
+                       want_frontier=want_frontier)
+    finally:
+        _journal.close()
+        f.close()
+        _journal = None
+
+
+def _read_journal(item):
+    try:
+        with open(_journal_path(item), "rb") as f:
+            return f.read().split(b"\0", 1)[0].decode("utf-8", "replace").strip()
+    except OSError:
+        return None
+
+
 def run_parallel(Sys, cfgs, depth, d0, split=1, close_every=True, contain_crashes=True):
-    """Explore, for every cfg, all histories up to `depth`; the work is split by
-    history prefixes of length `split` (those prefixes are explored -- and checked --
-    inside the first worker job for that cfg, with depth=split)."""
-    _JOB["args"] = (Sys, depth, d0, close_every)
+    """Explore, for every cfg, all histories up to `depth`.  Stage 1 explores the histories of
+    length <= split (unmerged) and returns the frontier; stage 2 explores the subtree below every
+    frontier history.  Both stages run in pool workers, so that a crash of the implementation is
+    attributed to the journalled history instead of killing the driver.  Returns (Stats, crashes)
+    with crashes = [(item, Crash, last journalled history)]."""
+    _JOB["args"] = (Sys, d0, close_every)
     total = Stats()
-    items = []
-    for cfg in cfgs:
-        # depth<=split part, checked in-process (cheap)
-        st = explore(Sys, cfg, min(split, depth), min(split, depth), (), close_every)
-        total.merge(st)
-        if depth > split and not st.violations:
-            for p in prefixes(Sys, cfg, split):
-                items.append((cfg, p))
     crashes = []
+    split = min(split, depth)
+    items = [(cfg, (), split, True) for cfg in cfgs] if split > 0 else []
+    stage2 = [] if split > 0 else [(cfg, (), depth, False) for cfg in cfgs]
     for item, r in pool.pmap(_work, [[it] for it in items], contain_crashes=contain_crashes):
         if isinstance(r, pool.WorkerError):
             raise InfraError(r.tb)
         if isinstance(r, pool.Crash):
-            try:
-                with open(_journal_path(item)) as f:
-                    last = f.read().strip()
-            except OSError:
-                last = None
-            crashes.append((item, r, last))
+            crashes.append((item, r, _read_journal(item)))
+            continue
+        total.merge(r)
+        if depth > split:
+            for h in r.frontier:
+                stage2.append((item[0], h, depth, False))
+    for item, r in pool.pmap(_work, [[it] for it in stage2], contain_crashes=contain_crashes):
+        if isinstance(r, pool.WorkerError):
+            raise InfraError(r.tb)
+        if isinstance(r, pool.Crash):
+            crashes.append((item, r, _read_journal(item)))
             continue
         total.merge(r)
     return total, crashes
